@@ -135,6 +135,9 @@ def make_case(family, i, rng, tier):
             'reply_glued': rng.random() < 0.3,
             'readahead': tls and rng.random() < 0.35,
             'auto_pong': True}
+    if tls and rng.random() < 0.3:
+        # the TLS layer belongs to an https:// proxy, the URL itself is ws://
+        case['via_https_proxy'] = True
     if rng.random() < 0.15:
         # the last byte of every burst travels in a segment of its own
         case['segment'] = 'tail1'
@@ -279,11 +282,22 @@ def build(case):
         # about how slowly a 1 MiB burst can be sipped)
         short = max(case['short'], len(data) // 4000 + 1)
         conn['short_reads'] = {'*': short}
-    sc = {'url': ('wss' if case['tls'] else 'ws') + '://example.test/',
+    px = bool(case.get('via_https_proxy')) and case['tls']
+    if px:
+        ok = b'HTTP/1.1 200 Connection established\r\n\r\n'
+        conn['proxy'] = {'steps': [{'op': 'await_request', 'nth': 1},
+                                   {'op': 'reply', 'tmpl': ok.hex(),
+                                    'cuts': [], 'gaps': [0]}],
+                         'then_server': True}
+        steps[0] = dict(steps[0], nth=2)
+    sc = {'url': ('wss' if case['tls'] and not px else 'ws') +
+          '://example.test/',
+          'ws': {'proxies': {'http': 'https://proxy.test:8443'}} if px
+          else {},
           'connect': {'poll': p, 'ping_rate': 0,
                       'auto_pong': case.get('auto_pong', True)},
           'conns': [conn], 'max_polls': 400000, 'max_events': 100000}
-    return sc, enc, ST.reply_len(reply), burst_bounds
+    return sc, enc, ST.reply_len(reply) + (len(ok) if px else 0), burst_bounds
 
 
 def _execute_threaded(case):
@@ -390,7 +404,7 @@ def execute(case):
                            else None))
                 break
         # automatic pongs at the availability time of their ping
-        wire = oracle.Wire(st)
+        wire = oracle.Wire(st, 2 if case.get('via_https_proxy') and case['tls'] else 1)
         times = {}
         pos = 0
         for seq, now, data in st.out:
